@@ -29,13 +29,18 @@ type Result struct {
 // invariant assumed at the head after its entry obligation, a callee's postcondition after its precondition obligation —
 // must not be available to the earlier obligation: they would make the proof circular.
 func (e *Enc) BackgroundFor(o *Obligation) string {
-	return e.background(o.N)
+	// recursive spec definitions are only unfolded where folds are established: loop-invariant and lemma obligations.
+	// Everywhere else the functions are uninterpreted (their values flow through the invariants), which keeps the
+	// solver from unrolling them without end.
+	return e.backgroundD(o.N, o.Class == "inv-entry" || o.Class == "inv-step" || o.Class == "lemma")
 }
 
 // Background returns the SMT text with every assertion of the function (used for dumps).
-func (e *Enc) Background() string { return e.background(len(e.asserts)) }
+func (e *Enc) Background() string { return e.backgroundD(len(e.asserts), true) }
 
-func (e *Enc) background(n int) string {
+func (e *Enc) background(n int) string { return e.backgroundD(n, true) }
+
+func (e *Enc) backgroundD(n int, defsOn bool) string {
 	var b strings.Builder
 	b.WriteString(preludeSMT)
 	if e.needFP {
@@ -52,7 +57,7 @@ func (e *Enc) background(n int) string {
 	}
 	for _, nm := range e.cs.SmtFunOrder {
 		useDef := false
-		if e.ct != nil {
+		if e.ct != nil && defsOn {
 			for _, d := range strings.Fields(e.ct.Opts["defs"]) {
 				if d == nm {
 					useDef = true
